@@ -76,7 +76,7 @@ def _format_column(col, max_preview: int | None = None) -> List[str]:
 	# Truncate with symmetric preview
 	vals = col._underlying
 	if len(vals) > max_preview * 2:
-		preview = list(vals[:max_preview]) + ['...'] + list(vals[-max_preview:])
+		preview = list(vals[:max_preview]) + ['...'] + list(vals[len(vals) - max_preview:])
 	else:
 		preview = list(vals)
 
@@ -88,7 +88,10 @@ def _format_column(col, max_preview: int | None = None) -> List[str]:
 		elif v is None:
 			out.append('None')
 		elif col._dtype and col._dtype.kind is float:
-			out.append(f"{v:.1f}" if v == int(v) else f"{v:g}")
+			if isinstance(v, float) and (v != v or v in (float('inf'), float('-inf'))):
+				out.append(str(v))  # nan / inf / -inf have no integer value to compare with
+			else:
+				out.append(f"{v:.1f}" if v == int(v) else f"{v:g}")
 		elif col._dtype and col._dtype.kind is int:
 			out.append(str(v))
 		elif col._dtype and col._dtype.kind is date:
